@@ -22,17 +22,17 @@ fn mix_for(prop: &str, a: &Args) -> Mix {
         "C01" => Mix {
             micro: m(if q { 480_000 } else { 24_000_000 }),
             structured: m(if q { 64_000 } else { 3_200_000 }),
-            long_lens: if q { vec![33_000, 66_000, 131_100] } else { vec![33_000, 40_000, 66_000, 70_000, 131_100, 500_000, 1_000_000] },
+            long_lens: if q { vec![300, 700, 1_100, 2_100, 4_200, 9_000, 33_000, 66_000, 131_100] } else { vec![300, 500, 700, 1_100, 1_600, 2_100, 3_000, 4_200, 6_000, 9_000, 17_000, 33_000, 40_000, 66_000, 70_000, 131_100, 500_000, 1_000_000] },
         },
         "C03" => Mix {
             micro: m(if q { 320_000 } else { 12_000_000 }),
             structured: m(if q { 48_000 } else { 1_600_000 }),
-            long_lens: if q { vec![33_000, 66_000] } else { vec![33_000, 66_000, 70_000, 131_100, 500_000, 1_000_000] },
+            long_lens: if q { vec![300, 700, 1_100, 2_100, 4_200, 9_000, 33_000, 66_000] } else { vec![300, 500, 700, 1_100, 1_600, 2_100, 3_000, 4_200, 6_000, 9_000, 17_000, 33_000, 66_000, 70_000, 131_100, 500_000, 1_000_000] },
         },
         _ => Mix {
             micro: m(if q { 96_000 } else { 3_000_000 }),
             structured: m(if q { 12_000 } else { 320_000 }),
-            long_lens: if q { vec![33_000] } else { vec![33_000, 66_000, 70_000] },
+            long_lens: if q { vec![300, 700, 1_100, 2_100, 4_200, 9_000, 33_000] } else { vec![300, 500, 700, 1_100, 1_600, 2_100, 3_000, 4_200, 6_000, 9_000, 17_000, 33_000, 66_000, 70_000] },
         },
     }
 }
@@ -109,21 +109,26 @@ pub fn run(prop: &str, a: &Args, rep: &mut Report) {
         if cfg!(miri) || (a.variant == "valgrind" && *n > 40_000) {
             break; // far too slow under Miri; under valgrind only the shorter long programs are run
         }
-        for variant in 0..5u64 {
+        for variant in 0..6u64 {
             // spread (length, variant) cells over shards
             li += 1;
             if li % a.nshards != a.shard % a.nshards {
                 continue;
             }
-            let n = if rng.chance(1, 2) { *n } else { n + rng.below(64) as usize };
-            let n = n.min(1_000_000);
-            if engine == Some(Engine::Cranelift) && n > 80_000 {
-                continue;
+            // medium sizes: several random lengths per cell (size/position thresholds in the
+            // hundreds or thousands); large sizes: one or two
+            let reps = if *n < 10_000 { 8 } else { 1 };
+            for _ in 0..reps {
+                let n = if *n < 10_000 { n + rng.below(*n as u64) as usize } else if rng.chance(1, 2) { *n } else { n + rng.below(64) as usize };
+                let n = n.min(1_000_000);
+                if engine == Some(Engine::Cranelift) && n > 80_000 {
+                    continue;
+                }
+                let c = gen_long(&mut rng, n, variant);
+                rep.set("long_cells", format!("{}:{}", mix.long_lens[i], c.class));
+                batch.push(pre_run(c, format!("long#{n}.{variant}"), 4_000_000));
+                handle(rep, std::mem::take(&mut batch));
             }
-            let c = gen_long(&mut rng, n, variant);
-            rep.set("long_cells", format!("{}:{}", mix.long_lens[i], c.class));
-            batch.push(pre_run(c, format!("long#{n}.{variant}"), 4_000_000));
-            handle(rep, std::mem::take(&mut batch));
         }
     }
 }
